@@ -703,6 +703,10 @@ func runC14(c *Ctx) {
 	for i := 0; i < n; i++ {
 		kind := c14Kinds[c.Intn(len(c14Kinds))]
 		doc := g.Kind(kind, 1+c.Intn(3))
+		if i%5 == 0 && doc.Kind == wire.Obj && kind != "ref" {
+			// an extension whose value is null (and one that holds nulls) on the transported object itself
+			doc = doc.Set("x-null", wire.MustParse(`null`)).Set("x-holds-null", wire.MustParse(`{"a":null,"b":[null,1]}`))
+		}
 		if kind == "operation" || kind == "swagger" {
 			switch c.Intn(4) {
 			case 0:
